@@ -87,8 +87,12 @@ SIG_F4_QUAD = 'file,layout=quadkey,collision-outside-quad-range'
 # ----------------------------------------------------------------------------- payloads
 
 class Payloads(object):
-    """payload id -> 2x2 RGB PNG; ids below N_MONO are single-colour tiles (canonical per colour)."""
+    """payload id -> 2x2 PNG (RGB or RGBA); ids below n_mono are single-colour tiles (canonical per colour tuple).
+    The model sees a payload as [number of channels] + pixel values."""
     MONO = [(0, 0, 0), (255, 255, 255), (254, 0, 4), (254, 0, 5), (1, 2, 3), (16, 0, 0)]
+    # RGBA: fully transparent colours that differ in the colour channels, opaque and half transparent ones, and the
+    # RGBA twin of an RGB colour (another tuple, another link file)
+    MONO_RGBA = [(0, 0, 0, 0), (255, 255, 255, 0), (255, 0, 0, 0), (254, 0, 4, 255), (254, 0, 4, 128), (0, 0, 0, 255)]
 
     def __init__(self):
         from PIL import Image
@@ -97,27 +101,44 @@ class Payloads(object):
         for i in range(14):
             a = (10 * i + 1, 7 * i % 256, 255 - i)
             b = (i, i + 1, i + 2)
+            if i % 5 == 4:
+                a, b = a + (0,), b + (255 - i,)
             pix.append([a, b, a, b] if i % 3 else [a, a, a, b])
+        first_rgba = len(pix)
+        pix += [[c] * 4 for c in self.MONO_RGBA]
+        self.mono_ids = list(range(len(self.MONO))) + list(range(first_rgba, len(pix)))
+        self.rgba_mono_ids = list(range(first_rgba, len(pix)))
         for p in pix:
-            img = Image.new('RGB', (2, 2))
+            ch = len(p[0])
+            img = Image.new('RGB' if ch == 3 else 'RGBA', (2, 2))
             img.putdata(p)
             buf = BytesIO()
             img.save(buf, 'PNG')
             data = buf.getvalue()
+            assert data not in self.by_png
             self.by_png[data] = len(self.png)
             self.png.append(data)
-            self.pixels.append([r * 65536 + g * 256 + b for (r, g, b) in p])
+            self.pixels.append([ch] + [self.pack(v) for v in p])
         self.n = len(self.png)
-        self.n_mono = len(self.MONO)
+        self.n_mono = len(self.MONO)          # ids below: RGB single-colour tiles (see mono_ids for all)
+
+    @staticmethod
+    def pack(v):
+        n = 0
+        for c in v:
+            n = n * 256 + c
+        return n
 
     def decode(self, data):
-        """bytes read back from a cache -> pixel list (what the model calls the payload)"""
+        """bytes read back from a cache -> what the model calls the payload"""
         if data in self.by_png:
             return list(self.pixels[self.by_png[data]])
         try:
             from PIL import Image
-            img = Image.open(BytesIO(data)).convert('RGB')
-            return [r * 65536 + g * 256 + b for (r, g, b) in img.getdata()]
+            img = Image.open(BytesIO(data))
+            if img.mode not in ('RGB', 'RGBA'):
+                img = img.convert('RGBA')
+            return [len(img.mode)] + [self.pack(v) for v in img.getdata()]
         except Exception:  # noqa
             return [-1, len(data)]
 
@@ -647,7 +668,7 @@ def gen_ops(rng, pay, pool, length, link=False, compact=False):
 
     def pid():
         if rng.random() < mono_bias:
-            return rng.randrange(pay.n_mono)
+            return rng.choice(pay.mono_ids)
         return rng.randrange(pay.n)
     for _ in range(length):
         r = rng.random()
@@ -850,6 +871,23 @@ def layout_probes():
     return out
 
 
+def colour_probes(pay):
+    """linked single-colour tiles whose colour tuples are close: fully transparent colours that differ in the colour
+    channels, an RGB colour and its opaque / half transparent RGBA twins"""
+    out = []
+    ids = pay.rgba_mono_ids + [2, 0]
+    addrs = [(i, 1000 * i, 12, ()) for i in range(len(ids))]
+    for lay in ('tc', 'tms'):
+        for link in ('symlink', 'hardlink'):
+            ops = [('store', a, p) for a, p in zip(addrs, ids)]
+            ops.append(('load_many', [(a[0], a[1], a[2]) for a in addrs], ()))
+            ops += [('store', addrs[0], ids[1]), ('load', addrs[1]), ('load', addrs[0]), ('remove', addrs[1]), ('load', addrs[0]),
+                    ('store', addrs[2], 7), ('load', addrs[2]), ('load', addrs[0]), ('reopen',),
+                    ('load_many', [(a[0], a[1], a[2]) for a in reversed(addrs)], ())]
+            out.append(({'kind': 'file', 'layout': lay, 'link': link}, ops, 'probe:close-colours'))
+    return out
+
+
 def dup_probes():
     out = []
     for k in SQL_KINDS:
@@ -979,7 +1017,7 @@ def object_cases(ctx, pay, terms, descr):
             elif r < 0.5:
                 calls.append(('cached', d))
             elif r < 0.85:
-                calls.append(('store', d, rng.randrange(pay.n_mono) if (link != 'none' and rng.random() < 0.5)
+                calls.append(('store', d, rng.choice(pay.mono_ids) if (link != 'none' and rng.random() < 0.5)
                               else rng.randrange(pay.n)))
             else:
                 calls.append(('remove', d))
@@ -1233,6 +1271,7 @@ def run(ctx):
     todo += dup_probes()
     todo += compact_probes()
     todo += layout_probes()
+    todo += colour_probes(pay)
 
     cfgs = all_configs()
     # 2. bounded exhaustive short histories over three colliding addresses (each from the empty state of the
@@ -1252,7 +1291,7 @@ def run(ctx):
                 if rng.random() < 0.5:       # three addresses that differ only in the dimension value
                     tr = [(tr[0][0], tr[0][1], tr[0][2], (('time', v),)) for v in rng.sample(DIM_VALUES, 3)]
             mono = cfg.get('link', 'none') != 'none'
-            p, q = (rng.randrange(pay.n_mono), rng.choice([rng.randrange(pay.n_mono), rng.randrange(pay.n)])) if mono \
+            p, q = (rng.choice(pay.mono_ids), rng.choice([rng.choice(pay.mono_ids), rng.randrange(pay.n)])) if mono \
                 else (rng.randrange(pay.n), rng.randrange(pay.n))
             if tr[0][3] != tr[1][3]:
                 # bulk operations take one dimensions argument: use the single-address alphabet only
